@@ -16,7 +16,7 @@ if [ "$DEMO" != "-" ]; then
 fi
 (cd "$WT" && PYTHONPATH="$WT/src" /venv/bin/python -m pytest -q -p no:cacheprovider --timeout=900 2>&1 | tail -1)
 for P in "$@"; do
-  VERIF_REPO=$WT timeout 1500 /verif/check "$P" --tier quick > /tmp/mw_out_$$ 2>&1; rc=$?
+  VERIF_REPO=$WT VERIF_EVIDENCE_DIR=/tmp/mw_ev_$$ timeout 3000 /verif/check "$P" --tier quick > /tmp/mw_out_$$ 2>&1; rc=$?
   echo "== $P exit=$rc  $(grep -c '^VIOLATION' /tmp/mw_out_$$) VIOLATION lines; $(tail -1 /tmp/mw_out_$$)"
   grep '^VIOLATION' /tmp/mw_out_$$ | head -3 | cut -c1-260
   grep 'CHECKER-ERROR\|^UNPROVED\|^NOTE' /tmp/mw_out_$$ | head -3 | cut -c1-300
